@@ -293,16 +293,22 @@ def djs_reject(data, model, outmask=None, inmask=None, sigma=None,
                 raise ValueError('maxrej and groupsize must have the same number of elements.')
         else:
             groupsize = len(data)
+    diff = data - model
+    if diff.dtype.kind == 'u':
+        #
+        # Unsigned data and model: the difference has to be allowed
+        # to be negative.
+        #
+        diff = data.astype(np.float64) - model
     if sigma is None and invvar is None:
         if inmask is not None:
             igood = (inmask & outmask).nonzero()[0]
         else:
             igood = outmask.nonzero()[0]
         if len(igood > 1):
-            sigma = np.std(data[igood] - model[igood])
+            sigma = np.std(diff[igood])
         else:
             sigma = 0
-    diff = data - model
     #
     # The working array is badness, which is set to zero for good points
     # (or points already rejected), and positive values for bad points.
